@@ -261,6 +261,10 @@ func newL2WorldOpt(r *core.Run, p *l2Profile, fixedBridge uint64, bases []string
 		gen.NextL1Sequence, gen.NextL2Sequence = 0, 0
 	}
 	hookGas := []uint64{0, 60_000, 1_000_000, 3_000_000}[r.Weighted([]int{1, 1, 6, 2})]
+	if hookGas > 0 {
+		// not only round allowances: where inside a charge the allowance runs out differs from world to world
+		hookGas += uint64(r.Intn(5000))
+	}
 	gen.Params = opchildtypes.NewParams(w.admin, w.executors, uint32(ng+r.Intn(4)), uint32(r.Intn(5)), sdk.NewDecCoins(), nil, hookGas)
 	if p.WhaleFees && r.Chance(1, 2) {
 		// (fee scenarios) the genesis file already lists fee-exempt accounts, in the order somebody typed them
@@ -702,7 +706,9 @@ func (w *l2World) genOp(spec *modelL2, bc blockCtx) ([]sdk.Msg, string, string) 
 		case 1:
 			// retention is never switched from k>0 to 0 (the SDK-inherited pruning loop then
 			// starts at a height that has no record yet and stops at once; out of scope)
-			if np.HistoricalEntries == 0 {
+			if np.HistoricalEntries == 0 || w.p.Prop == "C18" {
+				// (C18 does not judge retention: there the switch to 0, which leaves records no
+				// later block prunes, is part of the histories replicas must agree on)
 				np.HistoricalEntries = uint32(w.r.Intn(6))
 			} else {
 				np.HistoricalEntries = uint32(1 + w.r.Intn(5))
@@ -722,6 +728,9 @@ func (w *l2World) genOp(spec *modelL2, bc blockCtx) ([]sdk.Msg, string, string) 
 			np.Admin = []string{w.admin, w.ustr[0], w.outsider}[w.r.Intn(3)]
 		case 4:
 			np.HookMaxGas = []uint64{0, 60_000, 1_000_000, 3_000_000}[w.r.Intn(4)]
+			if np.HookMaxGas > 0 {
+				np.HookMaxGas += uint64(w.r.Intn(5000))
+			}
 		case 5:
 			np.MaxValidators = 0 // invalid
 		}
@@ -1026,6 +1035,7 @@ func (w *l2World) execBlock(bc blockCtx, txs []l2Pending, crash string) *core.Vi
 	}
 	w.sideTraffic("before-commit", raw)
 	w.n.Commit()
+	w.r.Witness(w.n.App.LastCommitID().Hash)
 	if crash == "after-commit" {
 		w.restart(crash)
 	}
